@@ -122,6 +122,31 @@ pub fn header_sweeps() -> Vec<(String, Vec<u8>)> {
                 put(format!("sweep-tag:{}", name), m0 + 4 * cnt + 4 * w, t);
             }
         }
+        // every non-empty subset of the offset words shifted by the same 1..3 bytes up or down: some
+        // offsets misaligned, the others not; value lengths between shifted offsets unchanged
+        let noff = cnt - 1;
+        if noff >= 1 && noff <= 4 {
+            for mask in 1u32..(1 << noff) {
+                for delta in [1i64, 2, 3, -1, -2, -3] {
+                    let mut b = base.clone();
+                    let mut ok = true;
+                    for w in 0..noff {
+                        if mask >> w & 1 == 1 {
+                            let at = m0 + 4 + 4 * w;
+                            let cur = u32::from_le_bytes(b[at..at + 4].try_into().unwrap()) as i64;
+                            if cur + delta < 0 {
+                                ok = false;
+                                break;
+                            }
+                            b[at..at + 4].copy_from_slice(&((cur + delta) as u32).to_le_bytes());
+                        }
+                    }
+                    if ok {
+                        out.push((format!("sweep-offset-shift:{}", name), b));
+                    }
+                }
+            }
+        }
         // pairs of offset words over a coarse grid (decreasing / equal / past-the-end combinations)
         let area = len - m0 - codec::header_len(cnt);
         let grid = [0usize, 4, 32, area.saturating_sub(4), area, area + 4, len - m0 - 4, len - m0, len, len + 4];
